@@ -9,7 +9,6 @@ import (
 	"sync"
 	"time"
 
-
 	"verif/family"
 	"verif/symx"
 )
@@ -41,12 +40,12 @@ func (v Variant) FlagString() string {
 
 // GenGrammar is one family member generated into the scratch module.
 type GenGrammar struct {
-	Idx     int
-	G       *family.Grammar
-	Dir     string // vw/gNNNN
-	Pkg     string // vwork/gNNNN
-	Broken  map[string]string // variant -> generator/compile message
-	PegErr  map[string]string // variant -> stderr of peg (warnings)
+	Idx    int
+	G      *family.Grammar
+	Dir    string            // vw/gNNNN
+	Pkg    string            // vwork/gNNNN
+	Broken map[string]string // variant -> generator/compile message
+	PegErr map[string]string // variant -> stderr of peg (warnings)
 }
 
 const adapterAST = `package PKG
@@ -57,11 +56,19 @@ import (
 )
 
 type ad[U Uint] struct {
-	p   *T[U]
-	err error
+	p      *T[U]
+	err    error
+	shared []func(*T[U]) error
 }
 
 func New() hl.Parser   { return &ad[uint32]{} }
+
+// NewShared returns a constructor whose instances are all initialised with the SAME option
+// values (built once), the way a worker pool would reuse an option slice.
+func NewShared(size int) func() hl.Parser {
+	opts := []func(*T[uint32]) error{Size[uint32](size)}
+	return func() hl.Parser { return &ad[uint32]{shared: opts} }
+}
 func New16() hl.Parser { return &ad[uint16]{} }
 func New64() hl.Parser { return &ad[uint64]{} }
 func NewU() hl.Parser  { return &ad[uint]{} }
@@ -75,6 +82,7 @@ func (a *ad[U]) Init(buf string, memo bool, size int) {
 	if size >= 0 {
 		opts = append(opts, Size[U](size))
 	}
+	opts = append(opts, a.shared...)
 	a.err = a.p.Init(opts...)
 }
 
@@ -197,8 +205,8 @@ func (a *ad[U]) BufferLen() int      { return len(a.p.buffer) }
 
 // EntrySpec describes one harness entry of a grammar property.
 type EntrySpec struct {
-	Name string
-	Body string // Go statement(s) inside `func Name(ARGS int...)`; may use G, NSW and variant package aliases
+	Name   string
+	Body   string // Go statement(s) inside `func Name(ARGS int...)`; may use G, NSW and variant package aliases
 	Params string // e.g. "n, rule int"
 }
 
@@ -209,9 +217,9 @@ type GramSpec struct {
 	// Jobs lists the (entry, args, needed witnesses) to explore for a grammar.
 	Jobs func(g *GenGrammar) []*Job
 	// BrokenIsViolation: a variant that does not generate/compile violates the property.
-	BrokenIsViolation bool
+	BrokenIsViolation    bool
 	ValidateEveryGrammar int // validate sampled paths natively for every k-th grammar
-	Cfg symx.Config
+	Cfg                  symx.Config
 }
 
 func (ws *Workspace) vwDir() string { return filepath.Join(ws.Dir, "vw") }
@@ -282,7 +290,9 @@ func (gg *GenGrammar) writeHarness(spec *GramSpec) error {
 	return os.WriteFile(filepath.Join(dir, "h.go"), []byte(b.String()), 0o644)
 }
 
-func (gg *GenGrammar) Label() string { return fmt.Sprintf("g%04d:%s:%s", gg.Idx, gg.G.Hash(), gg.G.Tag) }
+func (gg *GenGrammar) Label() string {
+	return fmt.Sprintf("g%04d:%s:%s", gg.Idx, gg.G.Hash(), gg.G.Tag)
+}
 
 func (gg *GenGrammar) Meta() map[string]any {
 	return map[string]any{"grammar": gg.G.PegText("d", false), "tag": gg.G.Tag, "hash": gg.G.Hash()}
@@ -426,7 +436,6 @@ func runGrammarProperty(c *Ctx, fam []*family.Grammar, spec *GramSpec) error {
 	}
 	return nil
 }
-
 
 // OK reports whether variant vn generated and compiled.
 func (gg *GenGrammar) OK(vn string) bool {
